@@ -14,35 +14,31 @@ Notation simc_at := (simc_at P).
 Notation Inv := (Inv (C:=C)).
 
 (* ---- the bitmapped element of a marker operator, on two run-time states ------ *)
-Definition same_out (sI sE : st) (a b : st) : Prop :=
-  w_c a = w_c b /\ w_r a = w_r sI /\ w_r b = w_r sE.
+Definition same_out (dd : ddesc) (sI sE : st) (a b : st) : Prop :=
+  w_c a = w_c b /\ w_r a = w_r sI /\ w_r b = w_r sE /\ io_dd (w_c a) = io_dd (w_c sI) ++ [dd].
 
 Lemma lift_same dd f (sI sE : st) :
-  w_c sI = w_c sE -> agree (same_out sI sE) (lift dd f sI) (lift dd f sE).
+  w_c sI = w_c sE -> agree (same_out dd sI sE) (lift dd f sI) (lift dd f sE).
 Proof.
   intros Hc. unfold lift, push_dd, with_c. rewrite Hc. rsimp.
   destruct (f (io_c (w_c sE))) as [c|e]; cbn [bind agree]; [|reflexivity].
-  split; [reflexivity|]. split; reflexivity.
+  repeat split; try reflexivity. rsimp. rewrite Hc. reflexivity.
 Qed.
 
 Lemma marker_elem_agree dd e (sI sE : st) :
   dd_id dd = e_id e -> w_c sI = w_c sE ->
   r_assoc (w_r sI) = [] -> r_assoc (w_r sE) = [] ->
-  r_qa (w_r sI) = QA_INFO_NA -> r_qa (w_r sE) = QA_INFO_NA ->
+  (forall s : st, elem_qa_r H (w_r sI) e s = Ok s) -> (forall s : st, elem_qa_r H (w_r sE) e s = Ok s) ->
   r_new_nbytes (w_r sI) = r_new_nbytes (w_r sE) ->
   r_nbits_offset (w_r sI) = r_nbits_offset (w_r sE) ->
   r_scale_offset (w_r sI) = r_scale_offset (w_r sE) ->
   r_bsr (w_r sI) = r_bsr (w_r sE) ->
   r_new_refvals (w_r sI) = r_new_refvals (w_r sE) ->
-  agree (same_out sI sE) (do_element H dd e sI) (do_element H dd e sE).
+  agree (same_out dd sI sE) (do_element H dd e sI) (do_element H dd e sE).
 Proof.
   intros Hdd Hc Ha1 Ha2 Hq1 Hq2 Hnb Hno Hso Hbsr Hrv.
   unfold do_element, elem_assoc, elem_assoc_r. rewrite Ha1, Ha2. cbn [bind].
-  unfold elem_qa, elem_qa_r. rewrite Hq1, Hq2.
-  change (QA_INFO_NA =? QA_INFO_WAITING)%N with false. change (QA_INFO_NA =? QA_INFO_PROCESSING)%N with false.
-  assert (HX : forall s : st, (if (desc_X (e_id e) =? 33)%N then Ok s else Ok s) = Ok s)
-    by (intros s; destruct (desc_X (e_id e) =? 33)%N; reflexivity).
-  cbv iota. rewrite !HX. cbn [bind].
+  unfold elem_qa. rewrite Hq1, Hq2. cbn [bind].
   unfold elem_body, elem_body_r. cbv zeta. rewrite Hnb, Hno, Hso, Hbsr, Hrv.
   destruct (kind_of_unit (e_unit e)).
   - cbn [io_handlers h_string]. apply lift_same; exact Hc.
@@ -52,6 +48,23 @@ Proof.
       destruct v as [v|]; cbn [agree]; [|reflexivity]. apply lift_same; exact Hc.
     + cbn [io_handlers h_numeric]. apply lift_same; exact Hc.
 Qed.
+
+Lemma elem_qa_na r e (s : st) : r_qa r = QA_INFO_NA -> elem_qa_r H r e s = Ok s.
+Proof.
+  intros Hq. unfold elem_qa_r. rewrite Hq.
+  change (QA_INFO_NA =? QA_INFO_WAITING)%N with false. change (QA_INFO_NA =? QA_INFO_PROCESSING)%N with false.
+  destruct (desc_X (e_id e) =? 33)%N; reflexivity.
+Qed.
+
+Lemma elem_qa_waiting r e (s : st) :
+  r_qa r = QA_INFO_WAITING -> (desc_X (e_id e) =? 33)%N = false -> elem_qa_r H r e s = Ok s.
+Proof.
+  intros Hq HX. unfold elem_qa_r. rewrite Hq, HX.
+  change (QA_INFO_WAITING =? QA_INFO_PROCESSING)%N with false. reflexivity.
+Qed.
+
+Lemma marker_elem_X id e : desc_X (e_id (marker_elem id e)) = desc_X (e_id e).
+Proof. unfold marker_elem. destruct (id =? 225255)%N; reflexivity. Qed.
 
 (* ---- process_marker_operator_descriptor ---------------------------------------- *)
 Lemma marker_simc id sC bbC :
@@ -63,25 +76,37 @@ Proof.
   2:{ unfold do_assoc, do_assoc_r in E. cbn [chk_handlers h_codeflag h_bitmapped] in E.
       unfold cemit in E. cbn [bind] in E. cbv zeta in E. rsimp_in E. rewrite Ea in E. discriminate. }
   cbn [bind] in E. cbn [chk_handlers h_bitmapped] in E. cbv zeta in E. rewrite Ea in E.
-  destruct ((r_qa (w_r sC) =? QA_INFO_NA)%N && negb (dirty sC)) eqn:Eq; [|discriminate].
-  apply andb_prop in Eq as [Eq Ed]. apply N.eqb_eq in Eq. apply negb_true_iff in Ed.
+  destruct (((r_qa (w_r sC) =? QA_INFO_NA)%N || ((r_qa (w_r sC) =? QA_INFO_WAITING)%N && negb (ck_c33 (w_c sC))))
+            && negb (dirty sC)) eqn:Eq; [|discriminate].
+  apply andb_prop in Eq as [Eq Ed]. apply negb_true_iff in Ed.
   unfold cemit in E. injection E as <-.
   eexists (SCons (SBitmapped id _) SNil). split; [reflexivity|]. split; [exact HS|].
-  intros sI sE [Hc HR]. rewrite exec_stmts_one. cbn [exec_stmt].
+  intros sI sE (Hc & HR & HN). rewrite exec_stmts_one. cbn [exec_stmt].
   unfold do_marker_r. rewrite (sa_assoc _ _ _ _ HR), Ea. cbn [bind].
   cbn [io_handlers h_bitmapped].
   unfold bitmapped_default, bitmapped_default_r, next_bitmapped, inject_props. rsimp.
   rewrite (dy_next_bm _ _ _ _ HR).
-  destruct (r_next_bm (w_r sI)) as [[|[idx e0] rest]|]; cbn [agree]; try reflexivity.
+  destruct (r_next_bm (w_r sI)) as [[|[idx e0] rest]|] eqn:En; cbn [agree]; try reflexivity.
   unfold io_add_link, ndesc. rsimp. cbn [bind]. rewrite Hc.
+  assert (HQ : forall s : st, elem_qa_r H (w_r sI) (marker_elem id e0) s = Ok s).
+  { intros s. apply orb_prop in Eq as [Eq|Eq].
+    - apply N.eqb_eq in Eq. apply elem_qa_na. rewrite (sa_qa _ _ _ _ HR). exact Eq.
+    - apply andb_prop in Eq as [Eq Ec]. apply N.eqb_eq in Eq. apply negb_true_iff in Ec.
+      apply elem_qa_waiting; [rewrite (sa_qa _ _ _ _ HR); exact Eq|].
+      rewrite marker_elem_X. destruct (HN Ec) as (_ & _ & _ & H3). rewrite En in H3. cbn [no33_opt] in H3.
+      inversion H3; subst. assumption. }
   eapply agree_mono; [|apply marker_elem_agree]; rsimp.
-  - intros a b (Hab & HaI & HbE). split; [exact Hab|]. rewrite HaI, HbE. rsimp. invr_solve HR.
+  - intros a b (Hab & HaI & HbE & Hdd). split; [exact Hab|]. split.
+    + rewrite HaI, HbE. rsimp. invr_solve HR.
+    + rsimp. intros X. destruct (HN X) as (Hd & H1 & H2 & H3). unfold NoC33. rewrite HaI, Hdd. rsimp.
+      rewrite En in H3. cbn [no33_opt] in H3 |- *. inversion H3; subst.
+      split; [|auto]. apply Forall_app. split; [rewrite <- Hc; exact Hd|]. constructor; [reflexivity|constructor].
   - destruct id; reflexivity.
   - reflexivity.
   - rewrite (sa_assoc _ _ _ _ HR). exact Ea.
   - exact (dy_assocE _ _ _ _ HR).
-  - rewrite (sa_qa _ _ _ _ HR). exact Eq.
-  - exact (dy_qaE _ _ _ _ HR).
+  - exact HQ.
+  - intros s. apply elem_qa_na. exact (dy_qaE _ _ _ _ HR).
   - exact (sa_new_nbytes _ _ _ _ HR).
   - exact (sa_nbits_offset _ _ _ _ HR).
   - exact (sa_scale_offset _ _ _ _ HR).
@@ -97,11 +122,11 @@ Ltac rw_all :=
   end.
 
 Ltac upd_case :=
-  apply simc_at_upd; intros [HB HL]; split;
+  apply simc_at_upd; [keeps|]; intros [HB HL]; split;
   [split; [exact HB|exact HL] | intros rI rE HR; invr_solve HR].
 
 Ltac opI HR :=
-  intros sI sE [_ HR]; unfold do_operator, do_operator_r; cbv zeta; rw_all.
+  intros sI sE (_ & HR & _); unfold do_operator, do_operator_r; cbv zeta; rw_all.
 
 Lemma mark_simc : simc (h_mark_boundary HC) (h_mark_boundary H).
 Proof.
@@ -137,7 +162,7 @@ Proof.
     destruct (Z.of_N (id mod 1000) =? 0)%Z eqn:Eo0.
     2:{ eapply simc_at_extI; [opI HR; reflexivity|]. upd_case. }
     eapply simc_at_extI; [opI HR; reflexivity|].
-    apply simc_at_upd; intros [HB HL]; split; [split; [exact HB|rsimp; cbn [length]; lia]|].
+    apply simc_at_upd; [keeps|]; intros [HB HL]; split; [split; [exact HB|rsimp; cbn [length]; lia]|].
     intros rI rE HR.
     assert (HE : dirty_of (set_new_refvals [] (set_nbits_new_refval (Z.of_N (id mod 1000)) (w_r sC))) (ck_ndef (w_c sC)) = false ->
                  r_new_refvals rE = []).
@@ -173,7 +198,7 @@ Proof.
     eapply simc_at_extI; [opI HR; reflexivity|].
     apply simc_at_bind.
     { apply (simc_at_pre_upd P (set_bm_state BITMAP_INDICATOR) sC (h_mark_boundary HC) (h_mark_boundary H));
-        [|apply mark_simc].
+        [keeps| |apply mark_simc].
       intros [HB HL]; split; [split; [right; left; reflexivity|exact HL]|intros rI rE HR; invr_solve HR]. }
     intros sC2. apply simc_at_bind; [apply constant_simc|].
     intros sC3. destruct (id / 1000 =? 222)%N; [upd_case|apply simc_at_ret]. }
